@@ -27,7 +27,7 @@ type op struct {
 	Name    string // deterministic identity (the YAML text / the library call)
 	YAML    string // one entry of the `passes:` list ("" for library passes)
 	Lib     func() compiler.Pass
-	Model   func(s mState) []alt
+	Model   func(c *mctx, s mState) []alt
 	Reduced bool // member of the reduced (thorough, depth 3) alphabet
 	// norm: positions not judged for this transformation
 	Norm normOpts
@@ -59,11 +59,13 @@ const (
 func tRef(pkg, name string) string {
 	return fmt.Sprintf(`{kind: ref, ref: {referred_pkg: %s, referred_type: %s}}`, pkg, name)
 }
-func tArrayOf(elem string) string { return `{kind: array, array: {valuetype: ` + elem + `}}` }
+func tArrayOf(elem string) string { return `{kind: array, array: {value_type: ` + elem + `}}` }
 
 func decodeType(src string) ast.Type {
 	var t ast.Type
-	if err := yaml.Unmarshal([]byte(src), &t); err != nil {
+	dec := yaml.NewDecoder(strings.NewReader(src))
+	dec.KnownFields(true)
+	if err := dec.Decode(&t); err != nil {
 		panic("c15: parameter type does not decode: " + src + ": " + err.Error())
 	}
 	return t
@@ -71,7 +73,9 @@ func decodeType(src string) ast.Type {
 
 func decodeFields(src string) []ast.StructField {
 	var f []ast.StructField
-	if err := yaml.Unmarshal([]byte(src), &f); err != nil {
+	dec := yaml.NewDecoder(strings.NewReader(src))
+	dec.KnownFields(true)
+	if err := dec.Decode(&f); err != nil {
 		panic("c15: parameter fields do not decode: " + src + ": " + err.Error())
 	}
 	return f
@@ -91,17 +95,17 @@ func commentsYAML(c []string) string {
 func opRenameObject(variant, from, to string) op {
 	y := fmt.Sprintf("rename_object: {from: %s, to: %s}", from, to)
 	return op{T: "rename_object", Variant: variant, Name: y, YAML: y, Norm: normOpts{blankHintBranches: true},
-		Model: func(s mState) []alt { return modelRenameObject(s, parseObjRef(from), to) }}
+		Model: func(c *mctx, s mState) []alt { return modelRenameObject(c, s, parseObjRef(from), to) }}
 }
 
 func opOmit(variant string, objects ...string) op {
 	y := fmt.Sprintf("omit: {objects: %s}", yamlList(objects))
-	return op{T: "omit", Variant: variant, Name: y, YAML: y, Model: func(s mState) []alt {
+	return op{T: "omit", Variant: variant, Name: y, YAML: y, Model: func(c *mctx, s mState) []alt {
 		var refs []objRef
 		for _, o := range objects {
 			refs = append(refs, parseObjRef(o))
 		}
-		return modelOmit(s, refs)
+		return modelOmit(c, s, refs)
 	}}
 }
 
@@ -116,19 +120,19 @@ func fieldRefs(fields []string) []fieldRef {
 func opOmitFields(variant string, fields ...string) op {
 	y := fmt.Sprintf("omit_fields: {fields: %s}", yamlList(fields))
 	return op{T: "omit_fields", Variant: variant, Name: y, YAML: y,
-		Model: func(s mState) []alt { return modelOmitFields(s, fieldRefs(fields)) }}
+		Model: func(c *mctx, s mState) []alt { return modelOmitFields(c, s, fieldRefs(fields)) }}
 }
 
 func opAddFields(variant, to, fieldsYAML string) op {
 	y := fmt.Sprintf("add_fields: {to: %s, fields: %s}", to, fieldsYAML)
 	return op{T: "add_fields", Variant: variant, Name: y, YAML: y,
-		Model: func(s mState) []alt { return modelAddFields(s, parseObjRef(to), decodeFields(fieldsYAML)) }}
+		Model: func(c *mctx, s mState) []alt { return modelAddFields(c, s, parseObjRef(to), decodeFields(fieldsYAML)) }}
 }
 
 func opAddObject(variant, object, as string, comments []string) op {
 	y := fmt.Sprintf("add_object: {object: %s, as: %s%s}", object, as, commentsYAML(comments))
 	return op{T: "add_object", Variant: variant, Name: y, YAML: y,
-		Model: func(s mState) []alt { return modelAddObject(s, parseObjRef(object), decodeType(as), comments) }}
+		Model: func(c *mctx, s mState) []alt { return modelAddObject(c, s, parseObjRef(object), decodeType(as), comments) }}
 }
 
 func opDuplicateObject(variant, object, as string, omit []string) op {
@@ -138,19 +142,19 @@ func opDuplicateObject(variant, object, as string, omit []string) op {
 	}
 	y += "}"
 	return op{T: "duplicate_object", Variant: variant, Name: y, YAML: y,
-		Model: func(s mState) []alt { return modelDuplicateObject(s, parseObjRef(object), parseObjRef(as), omit) }}
+		Model: func(c *mctx, s mState) []alt { return modelDuplicateObject(c, s, parseObjRef(object), parseObjRef(as), omit) }}
 }
 
 func opRetypeObject(variant, object, as string, comments []string) op {
 	y := fmt.Sprintf("retype_object: {object: %s, as: %s%s}", object, as, commentsYAML(comments))
 	return op{T: "retype_object", Variant: variant, Name: y, YAML: y,
-		Model: func(s mState) []alt { return modelRetypeObject(s, parseObjRef(object), decodeType(as), comments) }}
+		Model: func(c *mctx, s mState) []alt { return modelRetypeObject(c, s, parseObjRef(object), decodeType(as), comments) }}
 }
 
 func opRetypeField(variant, field, as string, comments []string) op {
 	y := fmt.Sprintf("retype_field: {field: %s, as: %s%s}", field, as, commentsYAML(comments))
 	return op{T: "retype_field", Variant: variant, Name: y, YAML: y,
-		Model: func(s mState) []alt { return modelRetypeField(s, parseFieldRef(field), decodeType(as), comments) }}
+		Model: func(c *mctx, s mState) []alt { return modelRetypeField(c, s, parseFieldRef(field), decodeType(as), comments) }}
 }
 
 func opFieldsSetRequired(variant string, required bool, fields ...string) op {
@@ -160,7 +164,7 @@ func opFieldsSetRequired(variant string, required bool, fields ...string) op {
 	}
 	y := fmt.Sprintf("%s: {fields: %s}", name, yamlList(fields))
 	return op{T: name, Variant: variant, Name: y, YAML: y,
-		Model: func(s mState) []alt { return modelFieldsSetRequired(s, fieldRefs(fields), required) }}
+		Model: func(c *mctx, s mState) []alt { return modelFieldsSetRequired(c, s, fieldRefs(fields), required) }}
 }
 
 // opFieldsSetDefault: values are YAML scalars that decode to strings or bools
@@ -178,23 +182,23 @@ func opFieldsSetDefault(variant string, kv ...string) op {
 	}
 	y := fmt.Sprintf("fields_set_default: {defaults: {%s}}", strings.Join(parts, ", "))
 	return op{T: "fields_set_default", Variant: variant, Name: y, YAML: y,
-		Model: func(s mState) []alt { return modelFieldsSetDefault(s, entries) }}
+		Model: func(c *mctx, s mState) []alt { return modelFieldsSetDefault(c, s, entries) }}
 }
 
 func opReplaceReference(variant, from, to string) op {
 	y := fmt.Sprintf("replace_reference: {from: %s, to: %s}", from, to)
 	return op{T: "replace_reference", Variant: variant, Name: y, YAML: y, Norm: normOpts{blankHintBranches: true},
-		Model: func(s mState) []alt { return modelReplaceReference(s, parseObjRef(from), parseObjRef(to)) }}
+		Model: func(c *mctx, s mState) []alt { return modelReplaceReference(c, s, parseObjRef(from), parseObjRef(to)) }}
 }
 
 func opConstantToEnum(variant string, objects ...string) op {
 	y := fmt.Sprintf("constant_to_enum: {objects: %s}", yamlList(objects))
-	return op{T: "constant_to_enum", Variant: variant, Name: y, YAML: y, Model: func(s mState) []alt {
+	return op{T: "constant_to_enum", Variant: variant, Name: y, YAML: y, Model: func(c *mctx, s mState) []alt {
 		var refs []objRef
 		for _, o := range objects {
 			refs = append(refs, parseObjRef(o))
 		}
-		return modelConstantToEnum(s, refs)
+		return modelConstantToEnum(c, s, refs)
 	}}
 }
 
@@ -205,38 +209,38 @@ func opTrimEnumValues() op {
 
 func opHintObject(variant, object, hintsYAML string) op {
 	y := fmt.Sprintf("hint_object: {object: %s, hints: %s}", object, hintsYAML)
-	return op{T: "hint_object", Variant: variant, Name: y, YAML: y, Model: func(s mState) []alt {
+	return op{T: "hint_object", Variant: variant, Name: y, YAML: y, Model: func(c *mctx, s mState) []alt {
 		var h map[string]any
 		if err := yaml.Unmarshal([]byte(hintsYAML), &h); err != nil {
 			panic(err)
 		}
-		return modelHintObject(s, parseObjRef(object), h)
+		return modelHintObject(c, s, parseObjRef(object), h)
 	}}
 }
 
 func opSchemaSetIdentifier(variant, pkg, id string) op {
 	y := fmt.Sprintf("schema_set_identifier: {package: %s, identifier: %s}", pkg, id)
 	return op{T: "schema_set_identifier", Variant: variant, Name: y, YAML: y,
-		Model: func(s mState) []alt { return modelSchemaSetIdentifier(s, pkg, id) }}
+		Model: func(c *mctx, s mState) []alt { return modelSchemaSetIdentifier(c, s, pkg, id) }}
 }
 
 func opSchemaSetEntryPoint(variant, pkg, ep string) op {
 	y := fmt.Sprintf("schema_set_entry_point: {package: %s, entry_point: %s}", pkg, ep)
 	return op{T: "schema_set_entry_point", Variant: variant, Name: y, YAML: y,
-		Model: func(s mState) []alt { return modelSchemaSetEntryPoint(s, pkg, ep) }}
+		Model: func(c *mctx, s mState) []alt { return modelSchemaSetEntryPoint(c, s, pkg, ep) }}
 }
 
 func opPrefix(variant, prefix string) op {
 	return op{T: "PrefixObjectNames", Variant: variant, Name: fmt.Sprintf("cog.PrefixObjectsNames(%q)", prefix),
 		Lib:   func() compiler.Pass { return cog.PrefixObjectsNames(prefix) },
 		Norm:  normOpts{blankEnumNames: true, blankHintBranches: true},
-		Model: func(s mState) []alt { return modelPrefixObjectNames(s, prefix) }}
+		Model: func(c *mctx, s mState) []alt { return modelPrefixObjectNames(c, s, prefix) }}
 }
 
-func opAppendComment(c string) op {
-	return op{T: "AppendCommentObjects", Variant: "all", Name: fmt.Sprintf("cog.AppendCommentToObjects(%q)", c),
-		Lib:   func() compiler.Pass { return cog.AppendCommentToObjects(c) },
-		Model: func(s mState) []alt { return modelAppendComment(s, c) }}
+func opAppendComment(comment string) op {
+	return op{T: "AppendCommentObjects", Variant: "all", Name: fmt.Sprintf("cog.AppendCommentToObjects(%q)", comment),
+		Lib:   func() compiler.Pass { return cog.AppendCommentToObjects(comment) },
+		Model: func(c *mctx, s mState) []alt { return modelAppendComment(c, s, comment) }}
 }
 
 // ---- alphabet of a seed ----
@@ -332,7 +336,7 @@ func alphabet(seed mState) []op {
 			}
 		}
 	}
-	// referenced objects, in order of first occurrence
+	// referenced objects
 	var targets []string
 	seenT := map[string]bool{}
 	seed.walkAll(func(t *ast.Type) {
@@ -348,7 +352,7 @@ func alphabet(seed mState) []op {
 			targets = append(targets, k)
 		}
 	})
-	sort.Strings(targets)
+	sort.Strings(targets) // deterministic, independent of traversal order
 	R := S.ref()
 	if len(targets) > 0 {
 		R = targets[0]
@@ -373,7 +377,7 @@ func alphabet(seed mState) []op {
 		add(len(targets) == 0, opRenameObject("exact", sref, "Renamed"))
 		add(len(targets) == 0, opRenameObject("othercase", sOther, "Renamed"))
 	}
-	add(false, opRenameObject("absent", pkg+".Nope", "Renamed"))
+	add(true, opRenameObject("absent", pkg+".Nope", "Renamed"))
 	add(false, opRenameObject("otherpkg", otherPkg+"."+rRef.Name, "Renamed"))
 	add(false, opRenameObject("exact-same-name", sref, S.Name))
 
@@ -392,7 +396,7 @@ func alphabet(seed mState) []op {
 	add(false, opOmitFields("absent", fld(pkg+".Nope", f)))
 	add(false, opOmitFields("otherpkg", fld(otherPkg+"."+S.Name, f)))
 	add(false, opOmitFields("nonstruct", fld(pkg+"."+nName, f)))
-	add(false, opOmitFields("multi", fld(sref, f), fld(sref, last)))
+	add(true, opOmitFields("multi", fld(sref, f), fld(sref, last)))
 
 	// add_fields: a new field, an existing one (must not be overwritten) and
 	// the existing one spelled in the other letter case (a different name)
@@ -406,7 +410,7 @@ func alphabet(seed mState) []op {
 
 	// add_object
 	add(true, opAddObject("exact", pkg+".Added", tConstStr, []string{"added object"}))
-	add(false, opAddObject("exact-ref", pkg+".AddedRef", tArrayOf(tRef(rRef.Pkg, rRef.Name)), nil))
+	add(true, opAddObject("exact-ref", pkg+".AddedRef", tArrayOf(tRef(rRef.Pkg, rRef.Name)), nil))
 	add(false, opAddObject("exact-enum", pkg+".AddedEnum", tEnumSp, nil))
 	add(false, opAddObject("absent", absentPkg+".Added", tString, nil))
 	add(false, opAddObject("existing", sref, tString, nil))
@@ -415,7 +419,7 @@ func alphabet(seed mState) []op {
 
 	// duplicate_object
 	add(true, opDuplicateObject("exact", sref, pkg+".Copy", nil))
-	add(false, opDuplicateObject("exact-omit", sref, pkg+".CopyLess", []string{swapCase(f)}))
+	add(true, opDuplicateObject("exact-omit", sref, pkg+".CopyLess", []string{swapCase(f)}))
 	add(true, opDuplicateObject("othercase", sOther, pkg+".Copy", nil))
 	add(false, opDuplicateObject("absent", pkg+".Nope", pkg+".Copy", nil))
 	add(false, opDuplicateObject("otherpkg-target", sref, otherPkg+".Copy", nil))
@@ -426,7 +430,7 @@ func alphabet(seed mState) []op {
 
 	// retype_object
 	add(true, opRetypeObject("exact", sref, tString, nil))
-	add(false, opRetypeObject("exact-comments", sref, tArrayOf(tRef(rRef.Pkg, rRef.Name)), []string{"retyped"}))
+	add(true, opRetypeObject("exact-comments", sref, tArrayOf(tRef(rRef.Pkg, rRef.Name)), []string{"retyped"}))
 	add(true, opRetypeObject("othercase", sOther, tString, nil))
 	add(false, opRetypeObject("absent", pkg+".Nope", tString, []string{"retyped"}))
 	add(false, opRetypeObject("otherpkg", otherPkg+"."+S.Name, tString, nil))
@@ -434,7 +438,7 @@ func alphabet(seed mState) []op {
 
 	// retype_field
 	add(true, opRetypeField("exact", fld(sref, f), tInt, nil))
-	add(false, opRetypeField("exact-comments", fld(sref, last), tArrayOf(tRef(rRef.Pkg, rRef.Name)), []string{"retyped"}))
+	add(true, opRetypeField("exact-comments", fld(sref, last), tArrayOf(tRef(rRef.Pkg, rRef.Name)), []string{"retyped"}))
 	add(true, opRetypeField("othercase", fld(sOther, f), tInt, nil))
 	add(false, opRetypeField("othercase-field", fld(sref, swapCase(f)), tInt, nil))
 	add(false, opRetypeField("absent-field", fld(sref, "nope"), tInt, []string{"retyped"}))
